@@ -204,7 +204,50 @@ def gen_Const():
     write("Const", body, "magpylib package source (AST scan) and magpylib.mu_0")
 
 
-GENERATORS = {"Const": gen_Const, "PathPad": gen_PathPad, "Exits": gen_Exits, "Ndim": gen_Ndim}
+def gen_Attr():
+    """which validator, with which constant arguments, every attribute setter of the object classes calls"""
+    import ast
+
+    files = ["class_BaseGeo.py", "class_BaseExcitations.py", "class_magnet_Cuboid.py", "class_magnet_Cylinder.py",
+             "class_magnet_CylinderSegment.py", "class_magnet_Sphere.py", "class_magnet_Tetrahedron.py", "class_misc_Triangle.py",
+             "class_current_Circle.py", "class_current_Polyline.py", "class_misc_Dipole.py", "class_Sensor.py"]
+    rows = []
+    for f in files:
+        tree = ast.parse(open(os.path.join(REPO, "magpylib", "_src", "obj_classes", f)).read())
+        for cls in [n for n in tree.body if isinstance(n, ast.ClassDef)]:
+            for fn in [n for n in cls.body if isinstance(n, ast.FunctionDef)]:
+                if not any(isinstance(d, ast.Attribute) and d.attr == "setter" for d in fn.decorator_list):
+                    continue
+                call = next((n for n in ast.walk(fn) if isinstance(n, ast.Call) and isinstance(n.func, ast.Name)
+                             and n.func.id.startswith("check_format_input")), None)
+                if call is None:
+                    continue
+                kw = {}
+                for k in call.keywords:
+                    try:
+                        kw[k.arg] = ast.literal_eval(k.value)
+                    except Exception:
+                        pass
+                dims = kw.get("dims")
+                dims = list(dims) if isinstance(dims, (tuple, list)) else []
+                sm1 = kw.get("shape_m1", 0)
+                rows.append((cls.name, fn.name, call.func.id, dims, -1 if sm1 == "any" else int(sm1 or 0), int(kw.get("length") or 0),
+                             bool(kw.get("allow_None", False)), bool(kw.get("forbid_negative", False)), bool(kw.get("forbid_negative0", False)),
+                             bool(kw.get("reshape", False))))
+    if len(rows) < 12:
+        raise Refusal(f"only {len(rows)} validated setters found")
+    b = lambda x: "true" if x else "false"
+    lst = ",\n".join(f'  ⟨"{c}", "{a}", "{v}", {d}, {m}, {l}, {b(n)}, {b(fn_)}, {b(f0)}, {b(rs)}⟩'
+                      for c, a, v, d, m, l, n, fn_, f0, rs in sorted(rows))
+    body = ("namespace MagpyVerif.Gen.Attr\n\n"
+            "structure Row where\n  cls : String\n  attr : String\n  validator : String\n  dims : List Nat\n"
+            "  /-- required size of the last axis; -1 = any; 0 = not given -/\n  shapeM1 : Int\n  length : Nat\n"
+            "  allowNone : Bool\n  forbidNegative : Bool\n  forbidNegative0 : Bool\n  reshape : Bool\n  deriving Repr, DecidableEq\n\n"
+            f"def table : List Row := [\n{lst}]\n\nend MagpyVerif.Gen.Attr\n")
+    write("Attr", body, "attribute setters of magpylib/_src/obj_classes/*.py (AST)")
+
+
+GENERATORS = {"Const": gen_Const, "Attr": gen_Attr, "PathPad": gen_PathPad, "Exits": gen_Exits, "Ndim": gen_Ndim}
 
 
 def main():
